@@ -41,9 +41,9 @@ type Prog struct {
 
 	ssaState *ssaState
 
-	Inline *InlineReport
+	Inline *InlineReport // what the normalisation by inlining did (nil when Load was used directly)
 	// Baseline is the table of functions of the reference tree the normalisation was run with (nil: none).
-	Baseline map[string]bool // what the normalisation by inlining did (nil when Load was used directly)
+	Baseline map[string]bool
 }
 
 // ReadAbs returns the content of a source file by absolute name, taking the overlay into account.
@@ -857,4 +857,64 @@ func (p *Prog) FieldConcreteTypes(fld *types.Var) ([]*types.Named, bool) {
 	}
 	sort.Slice(out, func(i, j int) bool { return out[i].Obj().Name() < out[j].Obj().Name() })
 	return out, known
+}
+
+// dropUnused removes from the indexes (functions, call sites, references) the functions named in keys that nothing
+// outside themselves refers to any more: helpers whose every call was replaced by their body. Their text is still
+// in the file, but it is dead code - a rule that counts call sites must not count it twice.
+func (p *Prog) dropUnused(keys map[string]bool) []string {
+	var dropped []string
+	for changed := true; changed; {
+		changed = false
+		for key, f := range p.Funcs {
+			if !keys[key] || f.Obj == nil {
+				continue
+			}
+			used := false
+			for _, s := range p.sitesBy[f.Obj] {
+				if s.In != f {
+					used = true
+				}
+			}
+			for _, r := range p.refs[f.Obj] {
+				if r.In != f {
+					used = true
+				}
+			}
+			if used {
+				continue
+			}
+			delete(p.Funcs, key)
+			delete(p.byObj, f.Obj)
+			var sites []*Site
+			for _, s := range p.sites {
+				if s.In != f {
+					sites = append(sites, s)
+				}
+			}
+			p.sites = sites
+			for o, ss := range p.sitesBy {
+				var keep []*Site
+				for _, s := range ss {
+					if s.In != f {
+						keep = append(keep, s)
+					}
+				}
+				p.sitesBy[o] = keep
+			}
+			for o, rs := range p.refs {
+				var keep []*Ref
+				for _, r := range rs {
+					if r.In != f {
+						keep = append(keep, r)
+					}
+				}
+				p.refs[o] = keep
+			}
+			dropped = append(dropped, key)
+			changed = true
+		}
+	}
+	sort.Strings(dropped)
+	return dropped
 }
